@@ -3,7 +3,7 @@ import ast
 
 from ..cfg import CFG
 from ..report import AnalysisError, borrow, norm
-from ..srcmodel import own_nodes, own_statements
+from ..srcmodel import own_nodes, own_statements, program_order
 from ..terms import Resolver, alternatives, canon, show, walk
 
 PROP = "C18"
@@ -140,7 +140,7 @@ def r2_fraction(rep, ctx):
             rep.bad("C18.R2", "Fraction.%s" % name, "Fraction.%s is missing" % name, fn=ci.methods.get("__init__"))
             continue
         res_ = Resolver(m, fn)
-        rets = sorted((r for r in own_nodes(fn.node) if isinstance(r, ast.Return) and r.value is not None), key=lambda r: r.lineno)
+        rets = sorted((r for r in own_nodes(fn.node) if isinstance(r, ast.Return) and r.value is not None), key=program_order(fn.node))
         # the result of the operation is the last return; earlier returns delegate unusual operands (`other * self`)
         main = rets[-1] if rets else None
         t = res_.term(main.value) if main is not None else None
@@ -340,7 +340,7 @@ def r4_parts(rep, ctx):
     fn = m.method("FractionScalar", "ConvertFractionValue")
     res = Resolver(m, fn)
     P = {p_: ("param", i_, p_) for i_, p_ in enumerate(fn.params)}
-    convs = sorted((c for c in own_nodes(fn.node) if isinstance(c, ast.Call) and isinstance(c.func, ast.Attribute) and c.func.attr in ("ConvertScalarValue", "Convert")), key=lambda c: (c.lineno, c.col_offset))
+    convs = sorted((c for c in own_nodes(fn.node) if isinstance(c, ast.Call) and isinstance(c.func, ast.Attribute) and c.func.attr in ("ConvertScalarValue", "Convert")), key=program_order(fn.node))
     parts = []
     src_ok = bool(convs)
     for c in convs:
